@@ -218,6 +218,16 @@ func genProfile(t *simrt.Tape, o genOpts) *profile.Profile {
 			if o.odd && t.Bool(K, 20) {
 				s.NumUnit[k][0] = oddStrings[t.Choose(K, len(oddStrings))]
 			}
+			if t.Bool(K, 30) {
+				// a second numeric key on the same sample, with its own mix of
+				// unit-ful and unit-less values
+				k2 := []string{"alignment", "latency", "a"}[t.Choose(K, 3)]
+				n := 1 + t.Choose(K, 3)
+				for j := 0; j < n; j++ {
+					s.NumLabel[k2] = append(s.NumLabel[k2], int64([]int{4096, 16, 0, 7}[t.Choose(K, 4)]))
+					s.NumUnit[k2] = append(s.NumUnit[k2], []string{"nanoseconds", "", "bytes"}[t.Choose(K, 3)])
+				}
+			}
 		}
 		p.Sample = append(p.Sample, s)
 	}
